@@ -332,6 +332,14 @@ func applyModel(docs []*ref.Node, o editOp) ([]*ref.Node, bool) {
 	for i, d := range docs {
 		out[i] = d.Clone()
 	}
+	if o.kind < nSetOps && len(o.p) == 1 {
+		// the document's top-level container itself (only SetNull applies to a container)
+		if !setAllowed(o.kind, out[o.p[0]].K) {
+			return out, false
+		}
+		out[o.p[0]] = setValueNode(o.kind)
+		return out, true
+	}
 	if o.kind < nSetOps {
 		parent := nodeAt(out, o.p[:len(o.p)-1])
 		idx := o.p[len(o.p)-1]
